@@ -151,6 +151,32 @@ CAUGHT = {
  "C11-2": ("C11", "steady_state_log_call_allocated typed_site=130", ""),
  "C15-1": ("C15", "statements_separated_without_a_rotation_point", "missed at first; caught after the C15 oracle demanded that a size rotation be justified by the bytes in the file"),
  "C15-2": ("C15", "statements_separated_without_a_rotation_point (daily / hourly / minutely)", ""),
+ # ---- wave 8 (ids -8 / -9; C01-C05, C07-C09, C11, C13, C18, C20): two per property, asked for non-default configurations,
+ #      rarely used APIs or two cooperating sites, and to avoid the first mechanism that comes to mind
+ "C01-8": ("C01", "reservation_granted_without_released_space, reservation_larger_than_capacity_granted, data_race_overwrite_of_bytes_still_being_read", "(same mechanism as C01-3: integral promotion of 8/16-bit position counters)"),
+ "C01-9": ("C01", "record_visible_before_its_commit", "finish_write() publishes the writer position by itself once half the capacity is finished but uncommitted"),
+ "C02-8": ("C08", "accepted_statement_larger_than_capacity, oversize_statement_not_rejected_with_error", "lives in ThreadContext (the configured maximum is rounded up to a power of two before it reaches the queue): invisible to the queue-level engine by construction; missed at first by the system-level checks because every maximum in the FrontendOptions menu was a power of two; caught by C08 after the unbounded dropping configuration got the maximum 3000 (largest reachable buffer 2048)"),
+ "C02-9": ("C02", "oversize_record_not_rejected", ""),
+ "C03-8": ("C03", "crash:Aborted (quill's formatted_msg assert), duplicate, lost, wrong_attribution (also C20)", "missed at first (every transit buffer capacity in the menu was a power of two); caught after BackendOptions::transit_event_buffer_initial_capacity also took the values 3, 5, 12, 100"),
+ "C03-9": ("C03", "lost", "(same mechanism as C20-2: UnboundedSPSCQueue::empty() ignores the next buffer)"),
+ "C04-8": ("C04", "message_differs_from_call_site_formatting", "needs a user check_printable_char stricter than the default inside the ASCII printable range (printable_mode 1 of the C04 / C11 runs)"),
+ "C04-9": ("C04", "crash:Aborted (quill's size asserts), crash:Segmentation_fault, crash:Bus_error", "(same mechanism as C04-1)"),
+ "C05-8": ("C05", "timestamp_order_inversion", "(UnboundedSPSCQueue::empty() ignores the next buffer: the batch goes on while older statements wait in the next buffer)"),
+ "C05-9": ("C05", "timestamp_order_inversion", "(same mechanism as C05-4: TSC-clock statements bypass the grace-period hold-back)"),
+ "C07-8": ("C07", "completed_statement_missing_after_exit, statement_missing_after_stop, crash", "(UnboundedSPSCQueue::empty() ignores the next buffer: the exit drain stops early)"),
+ "C07-9": ("C07", "handler_notice_missing, statement_of_signalled_thread_missing", "missed at first by construction (C07 plans always ran with wait_for_queues_to_empty_before_exit enabled, which masks the change completely); caught after one signal run in three switched the option off - the signal clause of the property is not conditioned on it"),
+ "C08-8": ("C08", "crash:Aborted (quill's size assert), accepted_statement_larger_than_capacity", "(same mechanism as C04-1)"),
+ "C08-9": ("C08", "accepted_but_not_delivered", "(context clean-up after a flush ignores the transit buffer, cf. C03-1)"),
+ "C09-8": ("C09", "blocked_log_call_never_resumes, fitting_statement_dropped_on_empty_queue", "(same mechanism as C09-3)"),
+ "C09-9": ("C09", "reservation_refused_although_queue_empty_and_consumer_idle (queue level)", "a producer-side 'maximum reached' flag that shrink() never resets"),
+ "C11-8": ("C11", "steady_state_log_call_allocated typed_site=144/145/146", "(same mechanism as C11-1)"),
+ "C11-9": ("C11", "steady_state_log_call_allocated (several typed sites)", "a function-local thread_local size cache in log_statement: glibc allocates when it registers the destructor at a thread's first use of each statement signature (visible only because the whole malloc family is interposed)"),
+ "C13-8": ("C13", "rendered_time_differs_from_strftime after_backward_step=1", "missed at first (no history moved within one second); caught after the clock histories got instants within the same second, earlier or later, with few significant fraction digits"),
+ "C13-9": ("C13", "rendered_time_differs_from_strftime", "needs GMT mode in a process zone that observes DST (mktime-based timegm)"),
+ "C18-8": ("C18", "backtrace_replay_differs_from_model, backtrace_flush_replayed_wrong_number_of_statements", "capacity parsed with strtoul from a recycled, not NUL-terminated transit buffer"),
+ "C18-9": ("C18", "backtrace_replay_differs_from_model", "(same mechanism as C18-7)"),
+ "C20-8": ("C20", "thread_contexts_not_reclaimed", "(same mechanism as C20-1)"),
+ "C20-9": ("C20", "crash:Aborted, delivery:duplicate, delivery:lost, delivery:wrong_attribution (also C03)", "(same change as C03-8) missed at first; caught after transit buffer capacities that are not powers of two were added"),
 }
 
 def src_of(sid):
@@ -158,8 +184,9 @@ def src_of(sid):
     # waves 1-4: /tmp/wt/<prop>/_seeded/{1,2}; wave 5 (ids -3, -4): /tmp/w5/<prop>/_seeded/{1,2}
     # wave 6 (ids -5, -6, -7): /tmp/w6/<prop>/_seeded/{1,2,3}
     # wave 7 (ids -8, -9, -10; six properties only): /tmp/w7/<prop>/_seeded/{1,2,3}
+    # wave 8 (ids -8, -9; the twelve properties that had no wave 7): /tmp/w8/<prop>/_seeded/{1,2}
     if n >= 8:
-        return "/tmp/w7/%s/_seeded/%d" % (prop, n - 7)
+        return "/tmp/%s/%s/_seeded/%d" % ("w7" if prop in ("C06", "C10", "C14", "C15", "C16", "C17") else "w8", prop, n - 7)
     if n >= 5:
         return "/tmp/w6/%s/_seeded/%d" % (prop, n - 4)
     return "/tmp/wt/%s/_seeded/%d" % (prop, n) if n <= 2 else "/tmp/w5/%s/_seeded/%d" % (prop, n - 2)
